@@ -461,10 +461,10 @@ def _run_async(case, scratch):
                                 raise AssertionError(f"expected one save task, found {len(new)}")
                             state["task"] = new[0]
                             new[0].add_done_callback(lambda _t: state["reached"].set())
-                            await state["reached"].wait()    # first iteration runs up to the sleep
+                            await asyncio.wait_for(state["reached"].wait(), 30)    # first iteration runs up to the sleep
                         elif armed():
                             gate[-1].set_result(None)        # the sleep ends
-                            await state["reached"].wait()    # next iteration up to the next sleep / task end
+                            await asyncio.wait_for(state["reached"].wait(), 30)    # next iteration up to the next sleep / task end
                     elif op == "stop":
                         stopped = True
                         await gw.stop()
@@ -501,7 +501,8 @@ def _run_async(case, scratch):
             h.uninstall()
 
 
-def scratch_dir():
-    d = core.BUILD / "scratch" / str(os.getpid()) / "c15"
+def scratch_dir(root_pid=None):
+    """Scratch directory of this process, below the directory of the process that owns the run."""
+    d = core.BUILD / "scratch" / str(root_pid or os.getpid()) / "c15" / f"w{os.getpid()}"
     d.mkdir(parents=True, exist_ok=True)
     return str(d)
